@@ -370,7 +370,7 @@ def count_nodes(tree, kind):
     return sum(count_nodes(x, kind) for x in tree)
 
 
-def depth1_const(widths, mixed=True, families=None):
+def depth1_const(widths, mixed=True, families=None, mixed_only=None):
     """depth-1 trees in which typed compile-time constants take the place of operands: every operator of
     CONST_FAMILIES with a constant in every operand position (binary operators: exactly one constant; operators
     with three or more operands: one or two), at least one run-time operand"""
@@ -382,13 +382,26 @@ def depth1_const(widths, mixed=True, families=None):
         return [L(t)] + [C(t, v) for v in const_values(t)]
 
     seen = set()
-    for fam, tree in apply_ops(operand_sets, list(widths), mixed=mixed, with_literals=False, families=fams,
-                               const_variants=True):
+
+    def gen():
+        if mixed_only is None:
+            yield from apply_ops(operand_sets, list(widths), mixed=mixed, with_literals=False, families=fams,
+                                 const_variants=True)
+        else:
+            # mixed operand widths only for the listed families (the others: equal widths)
+            yield from apply_ops(operand_sets, list(widths), mixed=True, with_literals=False,
+                                 families=[f for f in fams if f in mixed_only], const_variants=True)
+            yield from apply_ops(operand_sets, list(widths), mixed=False, with_literals=False,
+                                 families=[f for f in fams if f not in mixed_only], const_variants=True)
+
+    for fam, tree in gen():
         nc = count_nodes(tree, "const")
         if nc == 0 or count_nodes(tree, "in") == 0:
             continue
         if fam != "select" and nc > 2:
             continue
+        if fam == "ifexp" and tree[1][0] == "const" and (tree[2][0] == "const" or tree[3][0] == "const"):
+            continue  # constant condition: one representative per result type (both branches run-time)
         if fam == "select" and tree[1][0] != "in":
             continue  # a constant selector is not an operand position the docs describe (observed: a constant enum
             # selector emits `with eb select` without declaring the enumeration type)
@@ -424,7 +437,7 @@ def _slice_ext(x, w, depth, helpers):
 
 def slice_chains(quick=True):
     """nested constant slices / indices on one root object, chain length 1..3, complete:
-    BitVector[5], Unsigned[4], Signed[4] with every (hi, lo) pair at every level; BitVector[4] (thorough: [5]) with
+    BitVector[5], Unsigned[4], Signed[4] (quick: widths 4, 3, 3) with every (hi, lo) pair at every level; BitVector[4] (thorough: [5]) with
     msb(n)/lsb(n) at every level and all of msb/lsb/left/right (count and rest forms) up to length 2; plus slice->helper->index mixtures"""
     seen = set()
 
@@ -435,13 +448,13 @@ def slice_chains(quick=True):
             return True
         return False
 
-    for root in (bv(5), u(4), s(4)):
+    for root in ((bv(4), u(3), s(3)) if quick else (bv(5), u(4), s(4))):
         for t in _slice_ext(L(root), root[1], 3, False):
             if emit(t):
                 yield "slicechain", renumber(t)
     hw = 4 if quick else 5
     # helpers: msb(n)/lsb(n) chains of length <= 3; all four helpers with count and rest forms up to length 2
-    for t in _slice_ext(L(bv(hw)), hw, 3, "count"):
+    for t in _slice_ext(L(bv(hw)), hw, 3 if not quick else 2, "count"):
         if emit(t):
             yield "slicechain", renumber(t)
     for t in _slice_ext(L(bv(hw)), hw, 2, "full"):
@@ -449,13 +462,22 @@ def slice_chains(quick=True):
             yield "slicechain", renumber(t)
     # mixtures: slice, then helper, then slice/index (and helper, slice, helper)
     root = L(u(5))
-    for t1, w1 in [(("slice", root, hi, lo), hi - lo + 1) for hi in range(5) for lo in range(hi + 1) if lo > 0 and hi - lo >= 2]:
+    for t1, w1 in [(("slice", root, hi, lo), hi - lo + 1) for hi in range(5) for lo in range(hi + 1)
+                   if lo > 0 and hi - lo >= 2 and (not quick or hi == 4)]:
         for t2 in _slice_ext(t1, w1, 1, "full"):
             if t2[0] == "part" and V.typeof(t2) != BIT:
                 for t3 in _slice_ext(t2, V.typeof(t2)[1], 1, False):
                     if emit(t3):
                         yield "slicechain", renumber(t3)
-    for fn, n in (("msb", 4), ("lsb", 4), ("msb", 3)):
+    # helper chains of length 3 (quick: through the mixtures below and msb/lsb(n) on the 4 bit remainder)
+    for fn1, n1 in (("msb", 4), ("lsb", 4)):
+        for fn2 in ("msb", "lsb"):
+            for n2 in (2, 3):
+                t2 = ("part", fn2, ("part", fn1, root, n1, None), n2, None)
+                for t3 in _slice_ext(t2, n2, 1, "count"):
+                    if emit(t3):
+                        yield "slicechain", renumber(t3)
+    for fn, n in ((("msb", 4),) if quick else (("msb", 4), ("lsb", 4), ("msb", 3))):
         t1 = ("part", fn, root, n, None)
         for t2 in _slice_ext(t1, n, 1, False):
             if t2[0] == "slice":
